@@ -22,6 +22,7 @@ def run(ctx: Ctx) -> None:
     tableau.rule_own_tableau(ctx)
     tableau.rule_rowcol(ctx, [CLIFF, gatesum.TRANSFORM, STABF])
     tableau.rule_bounds(ctx, [CLIFF, STABF])
+    tableau.rule_phase_halves(ctx, [CLIFF, STABF, tableau.CTABLEAU, tableau.TABLEAU, tableau.METRIC, gatesum.SSTATE])
     tableau.rule_rowops(ctx)
     tableau.rule_phase_combine(ctx)
     tableau.rule_measure_rowset(ctx)
@@ -50,6 +51,7 @@ def rule_wrappers(ctx: Ctx) -> None:
 
 
 KNOCKOUTS = [
+    Knockout("halves-foreign-size", CLIFF, sub_once("        phase_list2 = np.split(tab.phase, 2)", "        phase_list2 = [tab.phase[: tableau.n_qubits], tab.phase[tableau.n_qubits :]]"), "num.halves", "tab.phase"),
     Knockout("measure-rowset-restricted", CLIFF, sub_once("            non_zero_x = np.delete(non_zero_x, i)\n", "            non_zero_x = non_zero_x[non_zero_x >= n_qubits][1:]\n"), "measure.rowset", "row set"),
     Knockout("measure-outcome-parity", CLIFF, sub_once("        outcome = r_vector[2 * n_qubits]", "        outcome = int(np.sum(tableau.phase[non_zero_x[non_zero_x < n_qubits] + n_qubits]) % 2)"), "own.rowops", "arithmetic on phase"),
     Knockout("removal-ascending", CLIFF, sub_once("    removal = sorted(total - keep, reverse=True)", "    removal = sorted(total - keep)"), "order.removal", "partial_trace"),
